@@ -257,7 +257,12 @@ impl<'a, 'input: 'a> SvgNode<'a, 'input> {
             ts.e as f32,
             ts.f as f32,
         );
-        ts.is_valid()
+
+        // A matrix with collinear rows, like `matrix(1 2 2 4 0 0)`, has non-zero
+        // scale factors, but is not invertible either.
+        let ad = ts.sx as f64 * ts.sy as f64;
+        let bc = ts.kx as f64 * ts.ky as f64;
+        ts.is_valid() && (ad - bc).abs() > f32::EPSILON as f64 * (ad.abs() + bc.abs())
     }
 
     pub fn is_visible_element(&self, opt: &crate::Options) -> bool {
